@@ -27,12 +27,14 @@ import kern2 as k2
 from hv import Case
 
 SPEC = {
-    "lean_modules": ["Honeycomb.Props.C11"],
+    "lean_modules": ["Honeycomb.Props.C11", "Honeycomb.Props.C11b", "Honeycomb.Props.C11c"],
     "required_theorems": [
         "C11_import_ok_WF", "C11_importLegacy_ok_WF", "C11_roundTrip_ok_WF", "C11_buildCells_structure",
         "C11_import_faces_and_gluing", "C11_import_gluing_complete",
         "C11_sew_keeps_equal_coordinates", "C11_export_points", "C11_export_cells", "C11_export_walk",
         "C11_export_walk_closed", "C11_export_pointOf", "C11_crack_is_sewn",
+        "C11_import_conforming_ok", "C11_export_ok", "C11_roundTrip_faces", "C11_roundTrip_adjacency",
+        "C11_roundTrip_bijection",
     ],
     "trusted_base": [
         "Lean 4.33 kernel; axioms propext, Classical.choice, Quot.sound only",
@@ -66,20 +68,16 @@ SPEC = {
 }
 
 SPEC["not_proved"] = [
-    "C11 (a) TOTALITY of the import of a conforming list (no unwrap fires: the orientation test of every 2-sew passes because "
-    "the two end points differ, every merge is defined) and the COORDINATES after all sews (corner i of face j still carries "
-    "the cell's i-th point). Proved instead, for EVERY input: a returned map is WF 3 (C11_import_ok_WF), it has the darts, "
-    "beta0 and beta1 of the pre-sew map whose structure and coordinates are C11_buildCells_structure (one face per cell), its "
-    "2-links only join sides traversed in opposite directions (C11_import_faces_and_gluing) and, when no directed side is "
-    "repeated, ALL such pairs are joined (C11_import_gluing_complete); one sew merging equal coordinates keeps them "
-    "(C11_sew_keeps_equal_coordinates). The missing induction needs 'new vertex orbit = union of the two old ones' at every "
-    "sew plus a forward construction of each successful run. Validated by the conforming-import oracle on the implementation.",
-    "C11 (c) composition: importCells (exportPiece m) is isomorphic to m for embedded maps with closed faces >= 3 sides. NOT "
-    "PROVED; moreover FALSE as stated in DESIGN par.7: the hypothesis 'no two darts share the same (origin, target) vertex "
-    "pair' does not exclude a crack (two 2-free darts running between the same two vertices in opposite directions), which "
-    "the import sews (known finding C11-crack, Lean witness C11_crack_is_sewn). Validated by the round-trip oracle on all "
-    "other streams.",
+    "floating point: every theorem is over exact rationals ((a+a)/2 = a, exact orientation test); the f64 / f32 behaviour "
+    "(exact averages of equal values, the orientation test at tiny and huge scales) is validated by the tie, not proved",
     "vtkio's reader/writer and float printing are outside the model (checked on the implementation: ASCII = binary on every case)",
+    "the composition theorems (C11_roundTrip_faces / _adjacency / _bijection) are stated for `Exportable` maps: closed faces "
+    "with >= 3 sides, all vertices defined, no two darts between the same ORDERED pair of vertices, different coordinates "
+    "at the two ends of every side; adjacency additionally needs `NoCrack` (necessary: known finding C11-crack, Lean witness "
+    "C11_crack_is_sewn). That triangulated / remeshed meshes produced by the kernels satisfy these hypotheses is not proved "
+    "(the round-trip oracle evaluates the property on them).",
+    "export of maps OUTSIDE `Exportable` (open faces, faces with <= 2 darts, isolated darts): only the general shape "
+    "theorems C11_export_points / _cells / _walk apply; the panic conditions are tied by the correspondence run only",
 ]
 
 
